@@ -1,7 +1,7 @@
 """C07 - cancel/move/amend do what they report; read-only calls are pure."""
 from ..level import LevelAnalysis, SELF
 from ..queue import QueueAnalysis
-from ..terms import affine, prove_zero, short, Int, agg, subterms
+from ..terms import unsign, affine, prove_zero, short, Int, agg, subterms
 from ..common import describe_path
 from ..db import AnchorError
 from .. import lvlrules as LR
@@ -160,7 +160,7 @@ def run(ctx, chk):
                 chk.require(o2[2] == vt, "U3", "%s:%s:%s:variant" % (fn, arm, vt), b.span, "the amend turns a %s into a %s" % (vt, o2[2]))
                 fd = dict(o2[3])
                 for f in R.identity_fields(vt):
-                    chk.require(fd.get(f) == ("field", o, vt, f), "U3", "%s:%s:%s:%s" % (fn, arm, vt, f), b.span,
+                    chk.require(unsign(fd.get(f)) == ("field", o, vt, f), "U3", "%s:%s:%s:%s" % (fn, arm, vt, f), b.span,
                                 "identity field %s of the amended order is %s" % (f, short(fd.get(f))), describe_path(r))
             else:
                 chk.require(o2 == o, "U3", "%s:%s:%s:same" % (fn, arm, vt), b.span, "amended order is %s" % short(o2)[:100])
@@ -198,7 +198,7 @@ def run(ctx, chk):
                     continue
                 fd = dict(o2[3])
                 for f in R.identity_fields(V):
-                    chk.require(fd.get(f) == ("field", subj, V, f), "U4", "%s:%s:%s" % (wb.defp, V, f), wb.span,
+                    chk.require(unsign(fd.get(f)) == ("field", subj, V, f), "U4", "%s:%s:%s" % (wb.defp, V, f), wb.span,
                                 "field %s is %s, expected self.%s" % (f, short(fd.get(f)), f))
                 d2, h2 = R.role(o2, p.facts, "display"), R.role(o2, p.facts, "reserve")
             else:
